@@ -102,8 +102,8 @@ func (g *gen) genTwo(typ, typ2 types.Type) error {
 	p.P("// Deprecated: In favour of generics.")
 	p.P("func %s(a, b %s) %s {", name, typeStr, typeStr)
 	p.In()
-	switch typ.(type) {
-	case *types.Basic:
+	switch {
+	case isOrdered(typ):
 		p.P("if a < b {")
 	default:
 		p.P("if %s(a, b) < 0 {", g.compare.GetFuncName(typ, typ))
@@ -139,8 +139,8 @@ func (g *gen) genSlice(typ *types.Slice, typ2 types.Type) error {
 	p.P("list = list[1:]")
 	p.P("for i, v := range list {")
 	p.In()
-	switch etyp.(type) {
-	case *types.Basic:
+	switch {
+	case isOrdered(etyp):
 		p.P("if v < m {")
 	default:
 		p.P("if %s(v, m) < 0 {", g.compare.GetFuncName(etyp, etyp))
@@ -155,4 +155,10 @@ func (g *gen) genSlice(typ *types.Slice, typ2 types.Type) error {
 	p.Out()
 	p.P("}")
 	return nil
+}
+
+// isOrdered reports whether values of the type can be compared with the < and > operators.
+func isOrdered(typ types.Type) bool {
+	b, ok := typ.(*types.Basic)
+	return ok && b.Info()&types.IsOrdered != 0
 }
